@@ -14,7 +14,7 @@ struct shim_node {
 	struct shim_node *hnext;        /* bucket chain */
 	struct shim_node *prev, *next;  /* insertion / recency order */
 	uint32_t hash;
-	unsigned char kv[];             /* key bytes, then (8-aligned) value bytes */
+	unsigned char kv[] __attribute__((aligned(8))); /* key bytes, then (8-aligned) value bytes */
 };
 
 struct shim_map {
